@@ -1,6 +1,6 @@
 CONSTANT Shape <- S23
 CONSTANT MaxLabel = 2
-CONSTANT Cfgs <- CfgAll
+CONSTANT Cfgs <- CfgSmall
 CONSTANT LegacyTpBeforeDecision = FALSE
 CONSTANT LegacyMergeIgnoresDirection = FALSE
 CONSTANT LegacyGlobalFlags = FALSE
